@@ -1558,7 +1558,8 @@ Notes:
     import mystic.symbolic as ms #XXX: randomness due to sympy?
     cons = ms.symbolic_bounds(min, max) #XXX: how clipping with symbolic?
     if not cons: return lambda x: x # all bounds are infinite
-    cons = ms.generate_constraint(ms.generate_solvers(ms.simplify(cons))) #join?
+    #NOTE: the bounds are already isolated; simplify would print them to 15 digits
+    cons = ms.generate_constraint(ms.generate_solvers(cons)) #join?
     return cons
 
 
